@@ -356,8 +356,11 @@ def aten_all_dim(self: TTensor, dim: int, keepdim: bool = False) -> BOOL:
 def aten_all_dims(self: TTensor, dim: Sequence[int] = (), keepdim: bool = False) -> BOOL:
     """all.dims(Tensor self, int[]? dim=None, bool keepdim=False) -> Tensor"""
 
-    if not dim:
+    if dim is None:
         return _aten_all_dims_no_dim(self, keepdim)
+    if len(dim) == 0 or len(self.shape) == 0:
+        # PyTorch reduces nothing for an empty dim list; a 0-d tensor has nothing to reduce
+        return op.Cast(self, to=BOOL.dtype)
     for d in dim:
         self = aten_all_dim(self, d, keepdim=True)
     if not keepdim:
@@ -494,8 +497,11 @@ def aten_any_dim(self: TTensor, dim: int, keepdim: bool = False) -> BOOL:
 def aten_any_dims(self: TTensor, dim: Sequence[int] = (), keepdim: bool = False) -> BOOL:
     """any.dims(Tensor self, int[1]? dim=None, bool keepdim=False) -> Tensor"""
 
-    if not dim:
+    if dim is None:
         return _aten_any_dims_no_dim(self, keepdim)
+    if len(dim) == 0 or len(self.shape) == 0:
+        # PyTorch reduces nothing for an empty dim list; a 0-d tensor has nothing to reduce
+        return op.Cast(self, to=BOOL.dtype)
     for d in dim:
         self = aten_any_dim(self, d, keepdim=True)
     if not keepdim:
